@@ -145,6 +145,9 @@ class Ownership:
         self.fold_attrs = {"inplace": False} if fold_attrs is None else fold_attrs
         self.assume_not_none = set(assume_not_none)
         self.exempt_fresh = set(exempt_fresh)  # (func short, stmt text): RHS treated as owned
+        # (func short, stmt text) -> indices of the inserted tuple the exemption is limited to (others flow normally)
+        self.exempt_fresh_elems: Dict[Tuple[str, str], Set[int]] = dict(exempt_fresh) if isinstance(exempt_fresh, dict) else {}
+        self.exempt_fresh_elems = {k: v for k, v in self.exempt_fresh_elems.items() if isinstance(v, (set, frozenset))}
         self.cut = set(cut)
         # function short name -> (base class whose __call__ is meant by calls through local values, excluded sub-hierarchy)
         self.value_calls = dict(value_calls or {})
@@ -767,6 +770,14 @@ class FuncEval:
                         k = (self.fi.short, self.kt(c))
                         if k in self.o.exempt_fresh:
                             self.o.used_exempt.add(k)
+                            # an exemption can be limited to some elements of an inserted tuple: the others still flow
+                            only = self.o.exempt_fresh_elems.get(k)
+                            arg_ = c.args[INSERTERS[name]]
+                            if only is not None and isinstance(arg_, ast.Tuple):
+                                vs_ = [self.eval(x) for i_, x in enumerate(arg_.elts) if i_ not in only]
+                                if vs_:
+                                    j_ = join(*vs_)
+                                    self.contain(f.value, Val(FS(), j_.all(), j_.font), c)
                         else:
                             self.contain(f.value, self.eval(c.args[INSERTERS[name]]), c)
         if isinstance(f, ast.Name) and name == "setattr" and len(c.args) >= 3:
